@@ -104,8 +104,14 @@ class FnGen:
         while budget > 0 and tries < 60:
             tries += 1
             before = len(out)
-            k = r.randrange(16)
-            if k == 0:
+            k = r.randrange(17)
+            if k == 16:
+                # results that nobody uses
+                out.append(ind + r.choice([f"ident({self.obj()})", f"pair({self.obj()}, {self.obj()})", f"[{self.obj()}, {self.obj()}]",
+                                           f"Box({self.obj()})", f"pick({self.obj()}, {self.obj()}, {self.cond()})",
+                                           f"({self.obj()}, {self.obj_expr()})"]))
+                self.constructs.append("discarded-result")
+            elif k == 0:
                 v = self.fresh("t")
                 out.append(f"{ind}{v} = {self.obj_expr()}")
                 self.objs.append(v)
